@@ -43,7 +43,8 @@ auto dr_numerical(auto && f, auto && x)
   // output variable
   Eigen::Matrix<Scalar, Ny, Nx> J(ny, nx);
 
-  if constexpr (K == 1) {
+  // first derivatives by forward differences with step eps (scaled by |x_j| on vector spaces)
+  const auto first_order = [&]() {
     Eigen::Index I0 = 0;
     utils::static_for<NumArgs>([&](auto i) {
       auto & w = std::get<i>(x_nc);
@@ -66,12 +67,19 @@ auto dr_numerical(auto && f, auto && x)
       }
       I0 += nx_j;
     });
+  };
 
+  if constexpr (K == 1) {
+    first_order();
     return std::make_pair(std::move(fval), std::move(J));
   }
 
   if constexpr (K == 2) {
     const auto sqrteps = std::sqrt(eps);
+
+    // the Jacobian gets its own pass with the first-order step: the (much larger) step of the second
+    // differences below would limit it to about 1e-4 relative accuracy
+    first_order();
 
     Eigen::Matrix<Scalar, Nx, std::min(Nx, Ny) == -1 ? -1 : Nx * Ny> H(nx, nx * ny);
 
@@ -102,8 +110,6 @@ auto dr_numerical(auto && f, auto && x)
           w0               = w0_orig;
 
           const Eigen::Matrix<Scalar, Ny, 1> d1 = rminus(F10, fval);
-
-          J.col(I0 + k0) = d1 / eps0;
 
           for (auto k1 = 0; k1 < nx_i1; ++k1) {
             Scalar eps1 = sqrteps;
